@@ -54,10 +54,10 @@ def main():
     for case in range(n_cases):
         n = int(rng.integers(2, 9 if quick else 11))
         cols = ['f1', 'f2', 'label']
-        vals = ['', 'a', 'b', 'c', '{}', 'a b', 'é']
+        vals = ['', 'a', 'b', 'c', '{}', 'a b', 'é', '.', 'ab', '(a)', '?', 'N', '+']
         rows = [[str(rng.choice(vals[:int(rng.integers(2, len(vals) + 1))])) for _ in cols] for _ in range(n)]
         thr = int(rng.integers(0, 4))
-        missing = str(rng.choice([',{}', 'NA', ',']))
+        missing = str(rng.choice([',{}', 'NA', ',', '.', 'a.', '(a)', '?', '*,NA', '[a]', 'a|b', '\\N', '+']))   # symbols are literal strings, not patterns
         bound = int(rng.choice([2, 3, 30000]))
         miss_set = set(missing.split(','))
         ref = None
@@ -90,6 +90,20 @@ def main():
                 ref = (state, split)
             elif state != ref[0]:
                 h.fail('split_independent', dict(wit, reference_split=ref[1]), f'{state} vs {ref[0]}')
+    # ---- cardinality across the sketch's warm-up capacity does not depend on the split (the value that arrives when the warm-up
+    #      set is full must not be lost): 2^18 distinct values, one more, then that one again - in one batch / split in two places
+    Wc = 2 ** 18
+    base_vals = [f'u{i}' for i in range(Wc)]
+    results = {}
+    for split_name, batches in (('A | x | x', [base_vals, ['extra'], ['extra']]), ('A | x', [base_vals, ['extra']]), ('A+x | x', [base_vals + ['extra'], ['extra']])):
+        reset()
+        for b in batches:
+            CR.compute_cardinalities(pd.DataFrame({'c': b}), Pbar(), 30000)
+        results[split_name] = len(CR.GLOBAL_CARDINALITY_STORAGE['c'])
+    h.record(('card-capacity',), True)
+    if len(set(results.values())) != 1:
+        h.fail('split_independent', {'column': '2^18 distinct values, then one more value seen once or twice', 'splits': list(results)},
+               f'cardinality per split: {results}')
     # ---- end to end: the "(cardinality; coverage)" annotations of a real multi-batch CLI run (coverage = mean of per-batch percentages)
     import os
     import re
